@@ -32,6 +32,8 @@ type Engine struct {
 	funcLoops  map[string][]ast.Stmt
 	mu         sync.Mutex
 	globalInit map[*types.Var]ast.Expr
+	// package variables that are never assigned directly (their address may be taken)
+	neverAssigned map[*types.Var]bool
 	typeById   map[int]types.Type
 	escaping   map[types.Object]bool
 }
@@ -269,6 +271,9 @@ func (e *Engine) immutableInit(o *types.Var) ast.Expr {
 	if e.globalInit == nil {
 		e.globalInit = map[*types.Var]ast.Expr{}
 		mutated := map[types.Object]bool{}
+		direct := map[types.Object]bool{}
+		inAddr := false
+		e.neverAssigned = map[*types.Var]bool{}
 		for _, f := range e.pkg.Syntax {
 			ast.Inspect(f, func(n ast.Node) bool {
 				mark := func(x ast.Expr) {
@@ -289,6 +294,9 @@ func (e *Engine) immutableInit(o *types.Var) ast.Expr {
 						case *ast.Ident:
 							if ob := e.info.Uses[v]; ob != nil {
 								mutated[ob] = true
+								if !inAddr {
+									direct[ob] = true
+								}
 							}
 						}
 						return
@@ -303,7 +311,9 @@ func (e *Engine) immutableInit(o *types.Var) ast.Expr {
 					mark(s.X)
 				case *ast.UnaryExpr:
 					if s.Op == token.AND {
+						inAddr = true
 						mark(s.X)
+						inAddr = false
 					}
 				case *ast.CallExpr:
 					// method calls with pointer receivers on globals (mutex.Lock) and delete()
@@ -336,12 +346,22 @@ func (e *Engine) immutableInit(o *types.Var) ast.Expr {
 						if ob, ok := e.info.Defs[n].(*types.Var); ok && !mutated[ob] {
 							e.globalInit[ob] = vs.Values[i]
 						}
+						if ob, ok := e.info.Defs[n].(*types.Var); ok && !direct[ob] {
+							e.neverAssigned[ob] = true
+						}
 					}
 				}
 			}
 		}
 	}
 	return e.globalInit[o]
+}
+
+func (e *Engine) isNeverAssigned(o *types.Var) bool {
+	e.immutableInit(o)
+	e.mu.Lock()
+	defer e.mu.Unlock()
+	return e.neverAssigned[o]
 }
 
 var reByte = regexp.MustCompile(`\bbyte\b`)
